@@ -273,6 +273,18 @@ func (h *Handler) handleProppatch(w http.ResponseWriter, r *http.Request) error 
 		return err
 	}
 
+	// RFC 4918 sections 14.23 and 14.26: set and remove each hold a prop
+	for _, rm := range update.Remove {
+		if rm.Prop.XMLName.Local == "" {
+			return HTTPErrorf(http.StatusBadRequest, "webdav: remove element without a prop element in PROPPATCH request")
+		}
+	}
+	for _, set := range update.Set {
+		if set.Prop.XMLName.Local == "" {
+			return HTTPErrorf(http.StatusBadRequest, "webdav: set element without a prop element in PROPPATCH request")
+		}
+	}
+
 	resp, err := h.Backend.PropPatch(r, &update)
 	if err != nil {
 		return err
